@@ -713,9 +713,39 @@ func (e *Engine) Differential(K int, report map[string]bool) *DiffResult {
 	for _, id := range alpha {
 		res.ByTag[e.msgs[id].Prim]++
 	}
-	nls := e.nl
-	if K > nls {
-		K = nls
+	// local states in the order of their first appearance in the (deterministic) global discovery order; the ids
+	// themselves depend on how the parallel workers interleaved while interning
+	type gq struct {
+		g GKey
+		q int32
+	}
+	var gs []gq
+	for g, ed := range e.visited {
+		gs = append(gs, gq{g, ed.seq})
+	}
+	sort.Slice(gs, func(i, j int) bool { return gs[i].q < gs[j].q })
+	var order []int
+	seenL := map[int]bool{}
+	for _, x := range gs {
+		for s := range e.Honest {
+			if id := int(x.g[s]); !seenL[id] {
+				seenL[id] = true
+				order = append(order, id)
+			}
+		}
+	}
+	if K >= len(order) {
+		K = len(order)
+	} else {
+		// the K/2 earliest local states plus K/2 spread evenly (fixed stride) over the later ones, so that deep local
+		// states (prepared in a later view, elected, after a NEW_VIEW) meet the mutation alphabet too
+		sel := append([]int{}, order[:K/2]...)
+		rest := order[K/2:]
+		k2 := K - K/2
+		for i := 0; i < k2; i++ {
+			sel = append(sel, rest[i*len(rest)/k2])
+		}
+		order = sel
 	}
 	res.States = K
 	var mu sync.Mutex
@@ -731,7 +761,7 @@ func (e *Engine) Differential(K int, report map[string]bool) *DiffResult {
 				if k >= K {
 					return
 				}
-				ls := e.lstate(k)
+				ls := e.lstate(order[k])
 				if e.finished(ls) {
 					continue
 				}
